@@ -77,7 +77,7 @@ def _judge(module, trace_path, shards=8, timeout=1500, header=0):
         for j in r.json:
             if isinstance(j, dict) and "bad" in j:
                 g = a + j["bad"] - header - 1
-                bad.append((g, j.get("why", ""), json.loads(body[g])))
+                bad.append((g, j.get("why", ""), json.loads(body[g]) if g >= 0 else json.loads(head[0]), j))
             elif isinstance(j, dict) and "drift" in j:
                 drift += 1
         os.remove(p)
@@ -90,7 +90,7 @@ def _txt(cps):
 
 
 def _quote_violations(rep, bad, what):
-    for _, why, rec in bad:
+    for _, why, rec, _j in bad:
         key = {"part": "quote", "why": why.split(":")[0] + (":" + why.split(":")[1] if ":" in why else ""),
                "s": _txt(rec["s"])}
         rep.violation(key, f"{what}: quote({_txt(rec['s'])!r}) = {_txt(rec['q'])!r}: {why}",
